@@ -19,6 +19,8 @@
     io    writer / reader start
     after cache label, snapshot, range and newest offset once the writer stored everything sent
     bytes kind, start, number of bytes delivered and the first 64
+    tgt   (only with harness tokens `… 1 <resume> <done> <e>`: the real RedisOutput
+          was used) the position the output holds after the round (`step`)
 -/
 import GunYu.Model.Psync
 namespace GunYu.Drive.C06
@@ -99,7 +101,7 @@ def handleSync (tag : String) (c : Cache) (tok : Id) (src : Source) (k : Int) (s
   [qline, mline, ioline, aline, bline]
 
 def handle : List String → Option (List String)
-  | "sync" :: tag :: be :: id1 :: id2 :: sw :: bl :: bf :: blen :: mo :: sl :: capa :: k :: spId :: spOff ::  cRun :: rdbL :: rdbS :: tok :: aofL :: aofR :: sb :: s1 :: s2 :: so :: _ =>
+  | "sync" :: tag :: be :: id1 :: id2 :: sw :: bl :: bf :: blen :: mo :: sl :: capa :: k :: spId :: spOff ::  cRun :: rdbL :: rdbS :: tok :: aofL :: aofR :: sb :: s1 :: s2 :: so :: rest =>
     let r : Option (List String) := do
       let backend ← if be == "d" then some Backend.disk else if be == "m" then some Backend.memory else none
       let id1 ← Hex.decode id1
@@ -125,7 +127,17 @@ def handle : List String → Option (List String)
       let rdb := match rdbL, rdbS with | some l, some s => some (l, s) | _, _ => none
       let aof := match aofL, aofR with | some l, some r => some (l, r) | _, _ => none
       let src : Source := ⟨id1, id2, sw, bl == "1", bf, blen, mo, sl, capa == "1"⟩
-      pure (handleSync tag ⟨backend, cRun, rdb, aof⟩ tok src k ⟨spId, spOff⟩ sb s1 s2 so)
+      let base := handleSync tag ⟨backend, cRun, rdb, aof⟩ tok src k ⟨spId, spOff⟩ sb s1 s2 so
+      -- schedules with the real RedisOutput: the position it holds after the round
+      match rest with
+      | [_, _, _, "1", resume, done, e] =>
+        let e ← e.toInt?
+        let w := world src sb s1 s2 so
+        let c : Cache := ⟨backend, cRun, rdb, aof⟩
+        let d : CData := ⟨fun n => w.hist c.runId n, (tok, match c.rdb with | some (l, _) => l | none => 0)⟩
+        let t' := step (resume == "1") w src ⟨⟨spId, spOff⟩, .none⟩ c d (done == "1") e
+        pure (base ++ [s!"{tag} tgt stored={spStr t'.stored}"])
+      | _ => pure base
     some (r.getD ["bad-op"])
   | _ => none
 
